@@ -158,7 +158,10 @@ def bounded(ctx):
         A = (rng.random((m, n)) < dens).astype(np.int8)
         if t % 7 == 0 and m >= n:
             A[:n, :n] = np.eye(n, dtype=np.int8)          # full column rank
-        ok = contract_ok(A.copy())
+        big = np.zeros((m + 2, n + 1), dtype=np.int8)
+        big[1:m + 1, :n] = A
+        # the same matrix in C order, Fortran order and as a slice of a larger array (memory layout is part of the input)
+        ok = contract_ok(A.copy()) and contract_ok(np.asfortranarray(A.copy())) and contract_ok(big[1:m + 1, :n])
         ctx.record(fam, PROVED if ok else REFUTED, {"shape": [m, n]} if t < 2 else None)
         if not ok:
             ctx.violate(fam, f"bounded:{m}x{n}:{A.tobytes().hex()[:24]}", f"random {m}x{n} matrix violates the f2_algebra contracts",
